@@ -132,6 +132,42 @@ ADDENDA = {
             "", " The flag filter and the slot index are recognised semantically (any equivalent guard / name lookup or pointer difference), not by source text."),
 }
 
+# Additions after the second seeding round (DESIGN.md 8.5, round 2)
+ADDENDA2 = {
+    "C02": ("; type-level widening rule on the emulator's parameter reassembly",
+            " Also decides that orc_executor_emulate and its helpers combine the two slots of a 64-bit parameter as zero-extended low | high << 32."),
+    "C03": ("; operand-size rule for accesses to the array-pointer slots of OrcExecutor",
+            " Also decides that array pointers kept in OrcExecutor.arrays[] are loaded, stored and advanced at pointer width."),
+    "C04": ("; compile-time witness (enum of a constant comparison in a scratch unit) for the spelling of constant operands",
+            " Also decides that the text c_get_name_int writes for a constant operand evaluates, in int arithmetic, to that constant."),
+    "C05": ("; bound rule for lengths returned by (v)snprintf with a positive-control fixture; non-NULL rule for program->code_exec",
+            " Also decides that a length returned by (v)snprintf is never used as copy length, subscript or pointer advance without being bounded by the buffer size, and that the compile driver never leaves a possibly-NULL pointer in program->code_exec."),
+    "C06": ("; non-NULL rule for every value stored into program->code_exec",
+            " Also decides that the fallback the compile driver installs is always a definite function pointer (backup function only where known non-NULL, else the emulator)."),
+    "C07": ("; must-pass-through on the wrapper emitter's CFG for the executor's n and m stores",
+            " Also decides that a generated wrapper stores n, and for 2-D programs m, into its executor on every path to the call."),
+    "C08": ("; scan of the block-scope static declarations the wrapper emitters of orcc write",
+            " Also decides that generated wrappers keep no mutable function-static object besides the once control (the executor is per call)."),
+    "C09": ("; counted-loop shape of the region scan and cursor shape of the chunk walk in the free-chunk search",
+            " Also decides a necessary condition of reuse: the free-chunk search visits regions 0..n-1 and every chunk of each."),
+    "C10": ("; decision-tree evaluation of the push/pop guards through predicate helpers",
+            " Also decides that every used callee-saved register other than rbp is pushed and popped whatever else the guard tests."),
+    "C13": ("; reaching-definition and guard-equivalence check on the constructors the decoder calls",
+            " Also decides that orc_program_add_{source,destination}_full store size and alignment as given (alignment 0 selecting the element size)."),
+    "C14": ("; finite evaluation of the guards of every constant advance of the text cursor over a byte alphabet",
+            " Also decides that OrcParser.p is advanced by a constant only over bytes known to be non-NUL."),
+    "C15": ("; type-level rule on the constant-reuse comparison",
+            " Also decides that constants are merged only by a comparison made at 64 bits on both sides."),
+    "C16": ("; acquire/release typestate for every block allocated into a local variable (allocating functions inferred by fixpoint)",
+            " Also decides, for all library functions, that a block allocated into a local is freed, returned or handed over on every path to an exit."),
+    "C18": ("; agreement between the names of the floating-point emit macros and the mnemonics of the table rows they select",
+            " Also decides that each of the floating-point emit macros of the x86 back ends selects the table row of the instruction it is named after."),
+    "C19": ("; guard classification and finite evaluation for every statement that clears a detected feature bit",
+            " Also decides that a detected feature bit is cleared only under the user's switch or under a cpuid-level test admitting only levels below the feature's leaf."),
+    "C20": ("; definition/dominance rule on the returns of orc_rule_set_new",
+            " Also decides that every registration takes a fresh last slot, so registration order is search order."),
+}
+
 NOT_YET = "check under construction in this round; not claimed until its rules are exact on the current tree"
 NOT_APPLICABLE = {
     "C01": "value equivalence of JIT code and emulation over all inputs/register allocations: no structural necessary condition beyond what C03/C10/C11 decide; needs execution or translation validation (other technique families)",
@@ -149,6 +185,9 @@ def main():
             if pid in ADDENDA:
                 a = ADDENDA[pid]
                 tech, text, note = tech + a[0], text + a[1], note + a[2]
+            if pid in ADDENDA2:
+                a = ADDENDA2[pid]
+                tech, text = tech + a[0], text + a[1]
             checks.append({
                 "property_id": pid,
                 "quick_cmd": "bin/check %s --tier quick" % pid,
